@@ -8,7 +8,9 @@ import (
 	"go/types"
 	"os"
 	"path/filepath"
+	"reflect"
 	"sort"
+	"strconv"
 	"strings"
 
 	"golang.org/x/tools/go/ssa"
@@ -29,6 +31,7 @@ type triageEntry struct {
 	Func   string `json:"func"`
 	Kind   string `json:"kind"`
 	Expr   string `json:"expr"`
+	Alt    string `json:"alt,omitempty"` // Expr with hoisted locals written back (filled by VERIF_C01_FILL_ALT)
 	Count  int    `json:"count"`
 	Reason string `json:"reason"`
 }
@@ -186,9 +189,23 @@ func c01(c *Ctx) {
 		return
 	}
 	want := map[string]*triageEntry{}
+	wantAlt := map[string]*triageEntry{}
 	for i := range tab.Sites {
 		e := &tab.Sites[i]
 		want[e.Func+" "+e.Kind+" "+e.Expr] = e
+		if e.Alt != "" {
+			wantAlt[e.Func+" "+e.Kind+" "+e.Alt] = e
+		}
+	}
+	if os.Getenv("VERIF_C01_FILL_ALT") != "" {
+		// maintenance: record, for every triaged site of the audited tree, its hoisting-insensitive form
+		for _, s := range sites {
+			if e, ok := want[s.Key()]; ok && s.Alt != "" && s.Alt != s.Expr {
+				e.Alt = s.Alt
+			}
+		}
+		b, _ := json.MarshalIndent(tab, "", " ")
+		os.WriteFile(filepath.Join(c.Verif, "tables", "c01_bounds.json"), b, 0o644)
 	}
 	classOf := func(s core.BoundsSite) *triageClass {
 		for i := range tab.Classes {
@@ -230,7 +247,18 @@ func c01(c *Ctx) {
 	for _, k := range keys {
 		s := first[k]
 		pos := fmt.Sprintf("%s:%d", s.File, s.Line)
-		if e, ok := want[k]; ok {
+		e, ok := want[k]
+		if !ok && s.Alt != "" {
+			// the same site with a sub-expression hoisted into (or written back from) a local
+			if e2, ok2 := want[s.AltKey()]; ok2 {
+				e, ok = e2, true
+			} else if e2, ok2 := wantAlt[k]; ok2 {
+				e, ok = e2, true
+			} else if e2, ok2 := wantAlt[s.AltKey()]; ok2 {
+				e, ok = e2, true
+			}
+		}
+		if ok {
 			if got[k] > e.Count {
 				r.Fail("R1.bounds", k, pos, fmt.Sprintf("%d unproven checks of this shape, only %d were triaged (%s): a further instance appeared", got[k], e.Count, e.Reason))
 			} else {
@@ -244,6 +272,10 @@ func c01(c *Ctx) {
 		}
 		if why := locallyGuarded(s); why != "" && got[k] == 1 {
 			r.Pass("R1.bounds", k, pos, "discharged locally: "+why)
+			continue
+		}
+		if why := sszFixedOperand(s); why != "" && got[k] == 1 {
+			r.Pass("R1.bounds", k, pos, "discharged by provenance: "+why)
 			continue
 		}
 		if why := inlinedCopy(p, s, want); why != "" {
@@ -538,6 +570,46 @@ func locallyGuarded(s core.BoundsSite) string {
 				if _, isC := core.ConstInt(bound); isC {
 					return ""
 				}
+				// x[:i] / x[i+1:] with i := slices.Index*(x, ...) and i >= 0 on every path: 0 <= i < len(x)
+				{
+					idxOf := func(v ssa.Value) *ssa.Call {
+						c, ok := core.Unwrap(v).(*ssa.Call)
+						if !ok {
+							return nil
+						}
+						switch core.CalleeID(c) {
+						case "slices.IndexFunc", "slices.Index":
+							if len(c.Call.Args) >= 1 && c.Call.Args[0] == x.X {
+								return c
+							}
+						}
+						return nil
+					}
+					var ic *ssa.Call
+					if x.Low == nil && x.High != nil {
+						ic = idxOf(x.High)
+					} else if x.High == nil && x.Low != nil {
+						if bo, ok := x.Low.(*ssa.BinOp); ok && bo.Op == token.ADD {
+							if k, isC := core.ConstInt(bo.Y); isC && k == 1 {
+								ic = idxOf(bo.X)
+							}
+						}
+					}
+					if ic != nil {
+						nonNeg := core.AnyFact(func(f core.Fact) bool {
+							return core.CmpFact(f, func(op token.Token, a, c ssa.Value) bool {
+								if a != ssa.Value(ic) {
+									return false
+								}
+								k, isC := core.ConstInt(c)
+								return isC && ((op == token.GEQ && k == 0) || (op == token.GTR && k == -1) || (op == token.NEQ && k == -1))
+							})
+						})
+						if core.InstrGuarded(x, nonNeg, nil) == nil {
+							return "the bound is an index returned by slices.Index* on the same slice, tested non-negative: 0 <= i < len(x)"
+						}
+					}
+				}
 				// x[:n] with n, err := ssz.DivideInt2(len(x), k, max), k >= 1: n = len(x)/k <= len(x)
 				if x.Low == nil && x.High != nil {
 					if ex, ok := core.Unwrap(x.High).(*ssa.Extract); ok && ex.Index == 0 {
@@ -640,6 +712,29 @@ func inlinedCopy(p *core.Prog, s core.BoundsSite, want map[string]*triageEntry) 
 		return ""
 	}
 	name := strings.ReplaceAll(strings.ReplaceAll(callee.FullName(), core.ModPath+"/", ""), core.ModPath, "")
+	if sig, ok := callee.Type().(*types.Signature); ok && sig.Recv() != nil {
+		if _, isIface := sig.Recv().Type().Underlying().(*types.Interface); isIface {
+			// the compiler devirtualised the call: find the concrete method through the SSA value
+			name = ""
+			for _, b := range s.Fn.Blocks {
+				for _, in := range b.Instrs {
+					c2, ok := in.(*ssa.Call)
+					if !ok || !c2.Call.IsInvoke() || c2.Call.Method.Name() != callee.Name() {
+						continue
+					}
+					if c2.Pos() != call.Lparen && c2.Pos() != call.Pos() {
+						continue
+					}
+					if _, f := core.ConcreteRecv(c2); f != nil {
+						name = core.FuncName(f)
+					}
+				}
+			}
+			if name == "" {
+				return ""
+			}
+		}
+	}
 	var reasons []string
 	for k, e := range want {
 		if e.Func == name && e.Kind == s.Kind {
@@ -697,4 +792,94 @@ func atomicValueAssertProved(p *core.Prog, x *ssa.TypeAssert) string {
 		return ""
 	}
 	return fmt.Sprintf("all %d Store calls into %s.%s store a %s", n, typ, field, types.TypeString(x.AssertedType, func(pk *types.Package) string { return pk.Name() }))
+}
+
+// sszFixedOperand: the site converts a byte slice to an array (or slices it to a constant
+// length) and the slice is, by data flow inside the function, a field (or an element of a field)
+// that the type's SSZ tags declare as a fixed-size byte vector at least that long. The size is
+// enforced by the type's decoder (C14.R1 checks decoder against tags).
+func sszFixedOperand(s core.BoundsSite) string {
+	if s.Fn == nil || s.Kind != "IsSliceInBounds" {
+		return ""
+	}
+	for _, b := range s.Fn.Blocks {
+		for _, in := range b.Instrs {
+			sp, ok := in.(*ssa.SliceToArrayPointer)
+			if !ok {
+				continue
+			}
+			if os.Getenv("VERIF_DEBUG") != "" {
+				fmt.Fprintf(os.Stderr, "debug sszFixedOperand cand: %s sp.Pos=%v instrPos=%v site=%v node=%T\n", s.Key(), sp.Pos(), core.InstrPos(sp), s.Pos, s.Node)
+			}
+			if sp.Pos() != s.Pos && core.InstrPos(sp) != s.Pos {
+				// the compiler points at the operand, go/ssa at the parenthesis: same conversion
+				ce, isCall := s.Node.(*ast.CallExpr)
+				ip := core.InstrPos(sp)
+				if !isCall || !(ip >= ce.Pos() && ip < ce.End()) {
+					continue
+				}
+			}
+			pt, ok := sp.Type().Underlying().(*types.Pointer)
+			if !ok {
+				continue
+			}
+			at, ok := pt.Elem().Underlying().(*types.Array)
+			if !ok {
+				continue
+			}
+			need := at.Len()
+			why := ""
+			if os.Getenv("VERIF_DEBUG") != "" {
+				fmt.Fprintf(os.Stderr, "debug sszFixedOperand: %s operand %s = %v\n", s.Key(), sp.X.Name(), sp.X)
+			}
+			core.Derives(sp.X, func(v ssa.Value) bool {
+				var fa *ssa.FieldAddr
+				switch x := v.(type) {
+				case *ssa.FieldAddr:
+					fa = x
+				case *ssa.UnOp:
+					fa, _ = x.X.(*ssa.FieldAddr)
+				}
+				var st *types.Struct
+				var idx int
+				if fa != nil {
+					if p2, ok := fa.X.Type().Underlying().(*types.Pointer); ok {
+						st, _ = p2.Elem().Underlying().(*types.Struct)
+						idx = fa.Field
+					}
+				} else if f, ok := v.(*ssa.Field); ok {
+					st, _ = f.X.Type().Underlying().(*types.Struct)
+					idx = f.Field
+				}
+				if st == nil {
+					return false
+				}
+				tag := reflect.StructTag(st.Tag(idx)).Get("ssz-size")
+				if tag == "" {
+					return false
+				}
+				parts := strings.Split(tag, ",")
+				last := strings.TrimSpace(parts[len(parts)-1])
+				n, err := strconv.ParseInt(last, 10, 64)
+				if err != nil || n < need {
+					return false
+				}
+				// the value converted must be the byte vector itself: the field for a 1-dimensional
+				// tag, an element of it for a 2-dimensional one
+				bs, isSlice := sp.X.Type().Underlying().(*types.Slice)
+				if !isSlice {
+					return false
+				}
+				if b2, ok := bs.Elem().Underlying().(*types.Basic); !ok || b2.Kind() != types.Uint8 {
+					return false
+				}
+				why = fmt.Sprintf("operand is (an element of) field %s, an SSZ fixed vector of %d bytes (ssz-size %q), converted to [%d]byte", st.Field(idx).Name(), n, tag, need)
+				return true
+			}, core.DeriveOpts{})
+			if why != "" {
+				return why
+			}
+		}
+	}
+	return ""
 }
